@@ -47,6 +47,21 @@ fn check_u16(w: u16, acc: &mut Acc) {
     if want != got || ok != (want != "invalid") {
         bad("classify", format!("{:#o}: type bits say {}, library says {} (to_result ok={})", w, want, got, ok));
     }
+    // the value itself: what an invalid word carries is the word (as the non-negative integer it is), also in the error;
+    // and the i32 and i16 spellings of the same word give the same value
+    if let FileMode::Invalid { raw_mode, .. } = m {
+        if raw_mode != w as i32 {
+            bad("invalid-carries-the-word", format!("{:#o} is kept as Invalid {{ raw_mode: {} }}", w, raw_mode));
+        }
+        match m.to_result() {
+            Err(rpm::Error::InvalidFileMode { raw_mode: r, .. }) if r == w as i32 => {}
+            other => bad("invalid-carries-the-word", format!("{:#o}: to_result() gives {:?}", w, other.map(|_| ()).map_err(|e| e.to_string()))),
+        }
+    }
+    let via_i32 = FileMode::from(w as i32);
+    if via_i32 != m || format!("{:?}", via_i32) != format!("{:?}", m) {
+        bad("same-word-same-value", format!("{:#o}: from(u16) = {:?}, from(i32) = {:?}", w, m, via_i32));
+    }
     acc.count(got);
     if want != "invalid" {
         acc.nontrivial += 1;
